@@ -37,6 +37,7 @@ type JobSpec struct {
 	Stubs        map[string]string  `json:"stubs"`
 	Noops        []string           `json:"noops"`
 	AllowPkgs    []string           `json:"allow_pkgs"`
+	InitPkgs     []string           `json:"init_pkgs"` // packages whose init() is executed first
 	FloatUF      bool               `json:"float_uf"`
 	Solvers      []string           `json:"solvers"`
 	Timeout      int                `json:"timeout"`
@@ -240,6 +241,22 @@ func runInstance(lp *LoadedPkg, js *JobSpec, ps map[string]int64, pools map[stri
 			}
 		}()
 		st := NewState()
+		for _, ip := range js.InitPkgs {
+			e.initPkgs[ip] = true
+		}
+		for _, ip := range js.InitPkgs {
+			p := lp.prog.ImportedPackage(ip)
+			if p == nil {
+				panic(unsupported("init package %s not loaded", ip))
+			}
+			if f := p.Func("init"); f != nil {
+				nst, _ := e.callFunction(st, f, nil, nil, nil, nil)
+				if nst == nil {
+					panic(unsupported("init of %s did not return", ip))
+				}
+				st = nst
+			}
+		}
 		e.callFunction(st, entry, nil, nil, nil, nil)
 	}()
 	res.ExecSecs = time.Since(start).Seconds()
@@ -423,6 +440,7 @@ func cmdRun(args []string) int {
 	pstr := fs.String("params", "", "k=v,k=v")
 	stubs := fs.String("stubs", "", "callee=stub;callee=stub")
 	noops := fs.String("noops", "", "callee;callee")
+	inits := fs.String("init", "", "packages whose init() runs first, comma separated")
 	allow := fs.String("allow", "", "extra allow-listed packages, comma separated")
 	nolem := fs.Bool("nolemmas", false, "disable zzLemma")
 	rewrite := fs.String("rewrite", "", "native rewrite entries file.go:Recv.Method=stub;...")
@@ -459,6 +477,9 @@ func cmdRun(args []string) int {
 		}
 	}
 	lemmasOff = *nolem
+	if *inits != "" {
+		js.InitPkgs = strings.Split(*inits, ",")
+	}
 	if *allow != "" {
 		js.AllowPkgs = strings.Split(*allow, ",")
 	}
@@ -556,7 +577,7 @@ func nativeReplay(js *JobSpec, ps map[string]int64, q *QueryResult, dir string) 
 	rr := ReplayResult{Dir: dir, Output: so}
 	switch q.Kind {
 	case "assert":
-		if strings.Contains(so, "ZZ-ASSERT-FAIL "+q.Label+"\n") {
+		if strings.Contains(so, "ZZ-ASSERT-FAIL "+q.Label+"\n") || strings.Contains(so, "ZZ-INV-FAIL "+q.Label+"\n") {
 			rr.Reproduced = true
 			rr.Summary = "native run fails the same assertion"
 		} else if strings.Contains(so, "ZZ-ASSERT-FAIL ") {
